@@ -213,7 +213,7 @@ func (r *Run) record(sub string, sc any, v Verdict) bool {
 	}
 	r.mu.Lock()
 	defer r.mu.Unlock()
-	if strings.Contains(v.Violation, "WATCHDOG-INCONCLUSIVE") {
+	if strings.Contains(v.Violation, "WATCHDOG-INCONCLUSIVE") || strings.Contains(v.Violation, "HARNESS-INCONCLUSIVE") {
 		r.st.Inconclusive = v.Violation
 		return false
 	}
@@ -399,8 +399,20 @@ func mutexBlockedInFlyt(dump string) string {
 		if !(strings.Contains(head, "sync.Mutex.Lock") || strings.Contains(head, "sync.RWMutex") || strings.Contains(g, "sync.(*Mutex).Lock") || strings.Contains(g, "sync.(*RWMutex)")) {
 			continue
 		}
-		if strings.Contains(g, "github.com/mark3labs/flyt.") {
-			return trimStack([]byte(g))
+		// the function that called Lock (first frame that is not runtime/sync/internal) must be flyt's
+		// own code - a callback waiting for a harness mutex does not count
+		for _, ln := range strings.Split(g, "\n")[1:] {
+			if strings.HasPrefix(ln, "\t") || strings.TrimSpace(ln) == "" {
+				continue
+			}
+			fn := strings.TrimSpace(ln)
+			if strings.HasPrefix(fn, "runtime.") || strings.HasPrefix(fn, "sync.") || strings.HasPrefix(fn, "internal/") {
+				continue
+			}
+			if strings.HasPrefix(fn, "github.com/mark3labs/flyt.") {
+				return trimStack([]byte(g))
+			}
+			break
 		}
 	}
 	return ""
@@ -463,4 +475,15 @@ func writeFuzzReplay(id string, sc any, v Verdict) string {
 	os.WriteFile(path, out, 0o644)
 	fmt.Printf("HARNESS-VIOLATION property=%s replay=%s fingerprint=%s\n%s\n", id, path, v.Fingerprint, v.Violation)
 	return path
+}
+
+// inconclusive builds a verdict that makes the run end as "inconclusive" (exit 2): the harness
+// could not set up the situation it wanted to observe; this is never reported as a violation.
+func inconclusive(format string, args ...any) Verdict {
+	return Verdict{Violation: "HARNESS-INCONCLUSIVE: " + fmt.Sprintf(format, args...), Fingerprint: "harness"}
+}
+
+// goroutinesRemain reports whether a bubble failure is only "goroutines outlived the case".
+func goroutinesRemain(fail string) bool {
+	return strings.Contains(fail, "blocked goroutines remain")
 }
